@@ -146,7 +146,8 @@ def ensure_builds(names, log=print):
 # jobs
 # ----------------------------------------------------------------------------------------
 class Job:
-    def __init__(self, build, args, timeout=300, env=None, tag="", cost=1, abort_prop=None):
+    def __init__(self, build, args, timeout=300, env=None, tag="", cost=1, abort_prop=None, stderr_rules=None):
+        self.stderr_rules = stderr_rules or []  # [(regex, prop, key)]: a match in stderr is a violation
         self.abort_prop = abort_prop  # property a fatal sanitizer report in this job is attributed to
         self.build = build      # build name
         self.args = args        # dict or list
@@ -276,6 +277,11 @@ def aggregate(results, out=None):
     for r in results:
         job, res = r["job"], r["result"]
         out.runs += 1
+        for (rx, rprop, rkey) in job.stderr_rules:
+            import re as _re
+            mm = _re.search(rx, r["stderr"])
+            if mm:
+                out.add_violation(rprop, rkey, "%s %s: stderr matched /%s/: %s" % (job.build, job.tag, rx, r["stderr"][mm.start():mm.start() + 1500]), 1, job)
         if res is None and job.abort_prop and not r["timed_out"]:
             import re
             m = re.search(r"(runtime error: [^\n]*|ERROR: AddressSanitizer: [^\n]*|ERROR: LeakSanitizer: [^\n]*)", r["stderr"])
@@ -372,7 +378,12 @@ def finish(prop, tier, seed, out, t0, rule, floors, extra_cov=None, assumptions=
 
     # coverage floors
     for name, minimum in (floors or {}).items():
-        have = out.counters.get(name, 0) if name != "distinct_nontrivial" else distinct
+        if name.startswith("chaos_overlaps:"):
+            have = sum(out.chaos.get(p, [0, 0, 0, 0])[2] for p in name.split(":")[1].split("+"))
+        elif name == "distinct_nontrivial":
+            have = distinct
+        else:
+            have = out.counters.get(name, 0)
         if have < minimum and not new:
             out.inconclusive.append("coverage floor not met: %s=%s < %s" % (name, have, minimum))
             cov["inconclusive"] = out.inconclusive[:10]
